@@ -91,7 +91,26 @@ def build_lines(prog):
             t += len(c)
         else:
             t += cap["hold"]
+    lines += trailing_load(prog, t)
     return apply_cuts(lines, prog.get("cuts"))
+
+
+def trailing_load(prog, t):
+    """A further caption that is still being loaded when the stream ends (RCL, PAC, text, no
+    End-Of-Caption): never displayed."""
+    tr = prog.get("trailing")
+    if not tr:
+        return []
+    w = [R.MISC["RCL"]] * (2 if prog["double"] == "all" else 1)
+    w += [R.pac(tr["row"], 0)] * (2 if prog["double"] == "all" else 1)
+    w += R.char_words(tr["text"])
+    return [(t + tr["gap"], w)]
+
+
+def trailing_strategy():
+    return st.one_of(st.none(), st.none(), st.none(), st.fixed_dictionaries({
+        "row": st.integers(1, 15), "text": st.sampled_from(["NEXT", "to be continued", "x"]),
+        "gap": st.integers(1, 60)}))
 
 
 def apply_cuts(lines, cuts):
@@ -284,7 +303,8 @@ def program_strategy(max_captions=4):
             if not (caps[k - 2]["clear"] or caps[k - 1]["edm"] == "inline"):
                 caps[k]["enm"] = True
         return {"drop": draw(st.booleans()), "double": draw(st.sampled_from(["none", "all", "random"])),
-                "captions": caps, "cuts": draw(cuts_strategy()), "spacing": draw(spacing_strategy())}
+                "captions": caps, "cuts": draw(cuts_strategy()), "spacing": draw(spacing_strategy()),
+                "trailing": draw(trailing_strategy())}
     return build()
 
 
